@@ -111,7 +111,7 @@ def gen_case(seed):
                            "folded": progen.render_global(new, e["gid"])})
             touched = set(u for u in touched if u[0] != "g")
         ordk = {"g": 0, "b": 0, "n": 1, "a": 2, "w": 2}
-        for u in sorted(touched, key=lambda u: (ordk[u[0]], u[1])):
+        for u in progen.cell_order(new, touched):
             ev = unit_cell(new, u)
             ev["kind"] = e["kind"]
             events.append(ev)
@@ -134,7 +134,7 @@ def gen_case(seed):
                 e = {"kind": "swap_kind", "node": j, "to_kind": to}
                 new, touched = evo.apply_with_discipline(cur, e, counter)
                 ordk = {"g": 0, "b": 0, "n": 1, "a": 2, "w": 2}
-                for u in sorted(touched, key=lambda u: (ordk[u[0]], u[1])):
+                for u in progen.cell_order(new, touched):
                     ev = unit_cell(new, u)
                     ev["kind"] = "swap_kind"
                     events.append(ev)
